@@ -158,7 +158,7 @@ def check_read_batch(ctx, path, spec, model_rows, rng, desc):
         for k in cols:
             if k in alt and rng.random() < 0.8:
                 units[k] = alt[k][rng.integers(0, len(alt[k]))]
-    kind = str(rng.choice(["slice", "tuple", "idx", "idx-unsorted-repeats", "int"]))
+    kind = str(rng.choice(["slice", "tuple", "idx", "idx-unsorted-repeats", "int", "idx-two", "int-too-many"]))
     is_f64 = spec.dtype == np.float64
     if kind in ("slice", "tuple"):
         a, b = sorted(int(x) for x in rng.integers(0, N + 1, 2))
@@ -207,6 +207,29 @@ def check_read_batch(ctx, path, spec, model_rows, rng, desc):
                 mid = rng.permutation(mid)
             sel = np.concatenate([[a], mid, [b - 1]])
         arg = sel.copy()
+    elif kind == "idx-two":
+        # exactly two row numbers (what a batch of two accepted samples is): an index array, not a (start, stop) pair
+        if N < 2:
+            return kind, "skipped"
+        sel = rng.choice(N, size=2, replace=False)
+        if rng.random() < 0.5:
+            sel = np.sort(sel)[::-1].copy()
+        arg = sel.copy()            # (a plain list is refused by read_batch: documented inputs are slice, tuple, int, ndarray)
+    elif kind == "int-too-many":
+        # more random rows than the table holds cannot be a subset without repeats: refused, never silently fewer rows
+        arg = N + int(rng.integers(1, 50))
+        d = dict(desc, read_kind=kind, columns=cols, N=N, size=arg)
+        try:
+            got = np.asarray(read_batch(path, cols, arg, units=units, rng=np.random.default_rng(int(rng.integers(0, 2 ** 31)))))
+        except Exception:
+            ctx.evaluations += 1
+            return kind, "refused"
+        ctx.evaluations += 1
+        if got.shape[0] != arg:
+            ctx.violation("read_batch-shape", "a random batch of %d rows was requested from a %d-row table and %d rows came back "
+                          "without an error" % (arg, N, got.shape[0]), d)
+            return kind, "bad"
+        return kind, "ok"
     else:
         sel, arg = None, int(rng.integers(1, N + 1))
     d = dict(desc, read_kind=kind, columns=cols, units={k: str(v) for k, v in (units or {}).items()}, N=N)
